@@ -229,44 +229,7 @@ func runC13(r *R) {
 			}
 			r.Check(!leak && len(avoid) > 0, "C13-R4", fn, "Lock "+key, in.Pos(), "released on every path", "an inode lock can be left held at function exit (later operations on this inode block forever)")
 		})
-		for _, acq := range CallsIn(fn, "(*"+arv+".throttle).Acquire") {
-			// every path from Acquire to exit starts a goroutine whose every path calls Release
-			avoid := map[ssa.Instruction]bool{}
-			allInstrs(fn, func(x ssa.Instruction) {
-				g, ok := x.(*ssa.Go)
-				if !ok {
-					return
-				}
-				cl := StaticCallee(g.Common())
-				if cl == nil {
-					return
-				}
-				rels := CallsIn(cl, "(*"+arv+".throttle).Release")
-				if len(rels) == 0 {
-					return
-				}
-				var thr []ssa.Instruction
-				for _, rl := range rels {
-					thr = append(thr, rl.(ssa.Instruction))
-				}
-				all := true
-				for _, e := range Exits(cl) {
-					if !MustPassFromEntry(cl, e, thr) {
-						all = false
-					}
-				}
-				if all {
-					avoid[x] = true
-				}
-			})
-			leak := false
-			for _, e := range exits {
-				if Reach(fn, acq.(ssa.Instruction), e, nil, avoid) {
-					leak = true
-				}
-			}
-			r.Check(!leak, "C13-R4", fn, "throttle.Acquire", acq.Pos(), "handed to a goroutine that always releases", "a write-throttle token can leak: after enough leaks every writer blocks forever")
-		}
+		throttlePairRule(r, "C13-R4", fn, exits)
 	}
 
 	// ---- R5
@@ -506,4 +469,46 @@ func flushSwapRules(r *R, ruleSwap, ruleCOW string) {
 		r.Check(cleared, ruleCOW, fn, "me.flushing = nil on reallocation", fn.Pos(), "token cleared when the buffer is replaced", "buffer replaced without clearing the flushing token")
 	}
 
+}
+
+// throttlePairRule: every throttle token acquired in fn is handed to a goroutine that releases it on every path (shared by C13 and C09).
+func throttlePairRule(r *R, rule string, fn *ssa.Function, exits []ssa.Instruction) {
+	for _, acq := range CallsIn(fn, "(*"+arv+".throttle).Acquire") {
+		// every path from Acquire to exit starts a goroutine whose every path calls Release
+		avoid := map[ssa.Instruction]bool{}
+		allInstrs(fn, func(x ssa.Instruction) {
+			g, ok := x.(*ssa.Go)
+			if !ok {
+				return
+			}
+			cl := StaticCallee(g.Common())
+			if cl == nil {
+				return
+			}
+			rels := CallsIn(cl, "(*"+arv+".throttle).Release")
+			if len(rels) == 0 {
+				return
+			}
+			var thr []ssa.Instruction
+			for _, rl := range rels {
+				thr = append(thr, rl.(ssa.Instruction))
+			}
+			all := true
+			for _, e := range Exits(cl) {
+				if !MustPassFromEntry(cl, e, thr) {
+					all = false
+				}
+			}
+			if all {
+				avoid[x] = true
+			}
+		})
+		leak := false
+		for _, e := range exits {
+			if Reach(fn, acq.(ssa.Instruction), e, nil, avoid) {
+				leak = true
+			}
+		}
+		r.Check(!leak, rule, fn, "throttle.Acquire", acq.Pos(), "handed to a goroutine that always releases", "a write-throttle token can leak: after enough leaks every writer blocks forever")
+	}
 }
